@@ -323,20 +323,20 @@ func heavyAt(e *yang.Entry, depth int) bool {
 }
 
 // walk visits e, its Dir and its rpc input / output and calls the read API on each node.
-func (w *walker) walk(e *yang.Entry, depth int) {
+func (w *walker) walk(e *yang.Entry, depth int) (height int) {
 	if e == nil {
-		return
+		return 0
 	}
 	if w.seen[e] {
 		if w.cyclic == "" && !w.sideMode {
 			w.cyclic = "entry reachable twice: " + e.Name
 		}
-		return
+		return writeHeight + 1
 	}
 	w.seen[e] = true
 	w.n++
 	if w.n > maxWalkNodes {
-		return
+		return writeHeight + 1
 	}
 	if depth > w.maxDepth {
 		w.maxDepth = depth
@@ -356,7 +356,9 @@ func (w *walker) walk(e *yang.Entry, depth int) {
 	// Find: own path, a bogus path, relative paths
 	if heavyAt(e, depth) {
 		p := e.Path()
-		_ = e.Find(p)
+		if !guardRootNotModule || !absolutePrefixed(p) || rootIsModule(e) {
+			_ = e.Find(p)
+		}
 	}
 	_ = e.Find("/nosuch:zz/yy")
 	_ = e.Find("/zz")
@@ -370,13 +372,29 @@ func (w *walker) walk(e *yang.Entry, depth int) {
 	}
 	// Print writes an indented listing, quadratic in the depth: from the root when the tree is
 	// shallow, else from the nodes 400 levels above the deepest ones (decided on the way back)
+	full := w.n <= fullNodes
+	up := func(h int) {
+		if h+1 > height {
+			height = h + 1
+		}
+	}
 	for _, k := range lib.SortedKeys(e.Dir) {
-		w.walk(e.Dir[k], depth+1)
+		up(w.walk(e.Dir[k], depth+1))
 	}
 	if e.RPC != nil {
-		w.walk(e.RPC.Input, depth+1)
-		w.walk(e.RPC.Output, depth+1)
+		if e.RPC.Input != nil {
+			up(w.walk(e.RPC.Input, depth+1))
+		}
+		if e.RPC.Output != nil {
+			up(w.walk(e.RPC.Output, depth+1))
+		}
 	}
+	// the accessors that write what is below e, where that is not deep
+	if full && height <= writeHeight {
+		curEntry.Store(e)
+		w.rb.entryWriters(e)
+	}
+	return height
 }
 
 // readType reads a resolved type: the printed forms of its range and length restrictions, the
